@@ -80,12 +80,20 @@ class StageP:
         self.errors = []
         self.log = ''
 
+    def property_files(self):
+        import glob
+        d = os.path.join(LEAN, 'Asn1Proofs', 'Properties')
+        return sorted(f for f in glob.glob(os.path.join(d, self.prop + '*.lean'))
+                      if re.fullmatch(re.escape(self.prop) + r'[a-z]?\.lean', os.path.basename(f)))
+
     def theorem_names(self):
-        path = os.path.join(LEAN, 'Asn1Proofs', 'Properties', self.prop + '.lean')
-        src = strip_lean_comments(open(path).read())
-        ns = re.findall(r'^namespace\s+(\S+)', src, re.M)
-        prefix = ns[0] + '.' if ns else ''
-        return [prefix + m for m in re.findall(r'^theorem\s+([A-Za-z0-9_\.\']+)', src, re.M)]
+        names = []
+        for path in self.property_files():
+            src = strip_lean_comments(open(path).read())
+            ns = re.findall(r'^namespace\s+(\S+)', src, re.M)
+            prefix = ns[0] + '.' if ns else ''
+            names += [prefix + m for m in re.findall(r'^theorem\s+([A-Za-z0-9_\.\']+)', src, re.M)]
+        return names
 
     def run(self):
         t0 = time.time()
@@ -118,7 +126,8 @@ class StageP:
         if rc == 0 and self.obligations:
             audit = os.path.join(LEAN, '.lake', 'audit_%s.lean' % self.prop)
             with open(audit, 'w') as f:
-                f.write('import Asn1Proofs.Properties.%s\n' % self.prop)
+                for pf in self.property_files():
+                    f.write('import Asn1Proofs.Properties.%s\n' % os.path.basename(pf)[:-5])
                 for t in self.obligations:
                     f.write('#print axioms %s\n' % t)
             rc2, out2 = run_cmd(['lake', 'env', 'lean', audit], cwd=LEAN)
@@ -136,7 +145,7 @@ class StageP:
             if rc2 != 0:
                 self.errors.append('audit failed: ' + out2[-500:])
         if self.tier == 'thorough' and rc == 0 and os.environ.get('VERIF_SKIP_LEANCHECKER') != '1':
-            rc3, out3 = run_cmd(['lake', 'env', 'leanchecker', 'Asn1Proofs.Properties.%s' % self.prop],
+            rc3, out3 = run_cmd(['lake', 'env', 'leanchecker'] + ['Asn1Proofs.Properties.%s' % os.path.basename(pf)[:-5] for pf in self.property_files()],
                                 cwd=LEAN, timeout=3000)
             self.leanchecker = (rc3 == 0)
             if rc3 != 0:
